@@ -201,6 +201,47 @@ fn probe_consts() -> Vec<String> {
     out
 }
 
+/// A whole transmission in ONE read window of a default-size stream (more bits than any per-call limit): every
+/// frame must come out, as when the same bits arrive in small pieces.
+fn big_window(rng: &mut Rng) -> String {
+    let nframes = rng.range(600, 900);
+    let mut bits: Vec<u8> = FLAG.to_vec();
+    let mut want: Vec<Vec<u8>> = vec![];
+    for _ in 0..nframes {
+        let plen = rng.range(8, 16);
+        let p = payload(rng, plen);
+        bits.extend(body(&p, true));
+        bits.extend(FLAG);
+        want.push(p);
+    }
+    rustradio::verif::set_stream_size(0);
+    let (w, r) = rustradio::stream::new_stream::<u8>();
+    rustradio::verif::set_stream_size(4096);
+    let (mut b, o) = HdlcDeframer::new(r, 4, 100);
+    let res = quiet(|| {
+        {
+            let mut wb = w.write_buf().unwrap();
+            for (i, x) in bits.iter().enumerate() {
+                wb.slice()[i] = *x;
+            }
+            wb.produce(bits.len(), &[]);
+        }
+        for _ in 0..6 {
+            let _ = b.work();
+        }
+    });
+    let mut got = vec![];
+    while let Some((p, _)) = o.pop() {
+        got.push(p);
+    }
+    let v = match res {
+        Err(p) => format!("FAIL panic: {p}"),
+        Ok(()) if got == want => "pass".to_string(),
+        Ok(()) => format!("FAIL {} of {} frames delivered from one window of {} bits", got.len(), want.len(), bits.len()),
+    };
+    format!("!hdlc big-window frames={nframes} bits={}\t{v}\t{}", bits.len(), if v == "pass" { "" } else { "big-window" })
+}
+
 pub fn run(args: &[String]) -> Vec<String> {
     let seed = arg_usize(args, "--seed", 1) as u64;
     let cases = arg_usize(args, "--cases", 300);
@@ -210,6 +251,7 @@ pub fn run(args: &[String]) -> Vec<String> {
     }
     let mut rng = Rng::new(seed);
     let mut out = Vec::new();
+    out.push(big_window(&mut rng.fork()));
     for i in 0..cases {
         let mut r = rng.fork();
         let max = *r.pick(&[4usize, 10, 10, 20, 50, 300]);
